@@ -37,7 +37,8 @@ CLAIMED = {
             "steps_le, limit_reports_infinite_loop); for loop families with body length 1 (if/else, route, exit node, signal-synchronised) and arbitrary body function, "
             "condition, start value and n: exactly 2n+1 steps, n body calls, n+1 gate calls, final value F^n(x0), and the exact limit state otherwise. Tie: families with body "
             "length 1-3, accumulators, both default_open settings, max_iterations around the exact bound, both runners, against a Python while-loop.",
-            BASE_NOTE + "Partial: families, not arbitrary cyclic programs; Progress hypothesis (known finding C04-F1: stall when an intermediate value repeats).", "DESIGN.md §7 C04"),
+            BASE_NOTE + "Partial: families, not arbitrary cyclic programs; Progress hypothesis (known finding C04-F1: stall when an intermediate value repeats). Float loop states "
+            "(integral floats far from the unit scale) are judged by the Python-side sequential loop only: floats are outside the model's value universe.", "DESIGN.md §7 C04"),
     "C05": ("proof", "Lean 4 proof: refinement of a nested run to the inlined run (value level, any nesting depth) + input-spec equality + flat-vs-nested differential correspondence",
             "Kernel-checked over arbitrary programs of the run model: a nested-graph node behaves as the function computed by its inner run (graphnode_as_function); wrapping a "
             "dependency-closed group of a gate-free acyclic graph leaves the reported inputs unchanged (nest_inputspec_eq, also through elaboration) and the run's outputs "
@@ -121,7 +122,9 @@ CLAIMED = {
             "has length 2 x leaves and ends with all done, final state independent of k; the hold-while-awaiting variant deadlocks (negative witness); worker pool bound. Tie: "
             "generated nest/map shapes x k in 1..4 x fifo/lifo/random release policies on the controllable loop: in-flight counter <= k, termination, same result as the "
             "unlimited run; the observed start/finish trace is replayed through the Lean model.",
-            BASE_NOTE + "asyncio.Semaphore fairness assumed; interrupt handlers take a permit too since the repair 583d200 (former known finding C15-F1, now the fixed record C15-X1).", "DESIGN.md §7 C15"),
+            BASE_NOTE + "asyncio.Semaphore fairness assumed; interrupt handlers take a permit too since the repair 583d200 (former known finding C15-F1, now the fixed record C15-X1), "
+            "gate routing functions since 03ac5ec (C15-X2); generator functions (async and plain) and gates are among the generated bodies; one long-lived runner object serves "
+            "all cases of a check process, each case in its own event loop.", "DESIGN.md §7 C15"),
     "C10": ("proof", "Lean 4 proof: list laws for zip/product, alignment of collected lists, sort-of-permutation + correspondence under random completion orders",
             "Kernel-checked: zip is position-wise with equal lengths enforced, product is row-major with length = product of lengths, every output list of a mapping node has "
             "one entry per combination (None for failed/missing), first failing item's error raised in input order, order restoration from completion order, item i of map = "
